@@ -46,13 +46,25 @@ fn laws(und: bool) {
 ///   2: minimizing twice equals minimizing once
 ///   3: minimize(maximize(x)) == minimize(x)
 fn laws_lang(code: &[u8], part: u8) {
+    laws_lang_opt(code, part, false)
+}
+/// `full`: script and region both present.  Then `minimize` starts from the input itself, every
+/// lookup it makes has the *concrete* language as key (the 7143-row search folds to constants), and
+/// only the 62- and 378-row tables are searched with symbolic keys: the one input class for which the
+/// minimize laws are cheap.  (With a subtag missing the first `maximize` returns the language of a
+/// table row - a symbolic value - and every later lookup searches the big table with it.)
+fn laws_lang_opt(code: &[u8], part: u8, full_input: bool) {
     let l = Language::from_bytes(code).unwrap();
-    let (s, _) = sym::opt_script();
-    let (r, _) = sym::opt_region();
+    let (s, r) = if full_input {
+        (Some(sym::any_script().0), Some(sym::any_region().0))
+    } else {
+        (sym::opt_script().0, sym::opt_region().0)
+    };
     let full = s.is_some() && r.is_some();
     let maxed = if full { Some((l, s, r)) } else { maximize(l, s, r) };
     let got = minimize(l, s, r);
-    cover!(got.is_some() && s.is_some());
+    // (a language without CLDR entry - the 3-letter representative - is never changed)
+    cover!((got.is_some() && s.is_some()) || (code.len() == 3 && got.is_none() && s.is_some()));
     match (got, maxed) {
         (Some(m), Some(mx)) => match part {
             0 => {
@@ -117,6 +129,12 @@ proofs! {
 [] fn c08_en_meaning() { laws_lang(b"en", 0) }
 [] fn c08_en_first() { laws_lang(b"en", 1) }
 [] fn c08_qaa_meaning() { laws_lang(b"qaa", 0) }
+[] fn c08_qaa_first() { laws_lang(b"qaa", 1) }
+[] fn c08_zh_full_meaning() { laws_lang_opt(b"zh", 0, true) }
+[] fn c08_zh_full_first() { laws_lang_opt(b"zh", 1, true) }
+[] fn c08_sr_full_meaning() { laws_lang_opt(b"sr", 0, true) }
+[] fn c08_sr_full_first() { laws_lang_opt(b"sr", 1, true) }
+[] fn c08_en_full_first() { laws_lang_opt(b"en", 1, true) }
 [] fn c08_wrapper_zh() { wrapper_lang(b"zh") }
 [] fn c08_laws_und() { laws(true) }
 [] fn c08_laws_lang() { laws(false) }
